@@ -407,7 +407,23 @@ fn eval_shape(frames: usize, layout: usize, limits: usize, q: &Joints, far: bool
             }
             last = cost;
         }
+        // the 5-DOF entry point keeps its own contract through the robot with shape: J6 is the caller's
+        if entry == Entry::Continuing5 {
+            if let Some(bad) = sols.iter().find(|s| s[5].to_bits() != prev[5].to_bits()) {
+                fails.push((
+                    "C09/entry-contract/inverse_continuing_5dof/shape>tool>base>opw".to_string(),
+                    format!("answer {bad:?} does not carry the caller's J6 = {}", prev[5]),
+                ));
+            }
+        }
         sigs.push(format!("shape:{}:{}", entry.name(), sols.len().min(3)));
+    }
+    if let Ok(sols) = call(&robot, Entry::FiveDof, &pose, &prev, 0.55) {
+        calls += 1;
+        if let Some(bad) = sols.iter().find(|s| s[5].to_bits() != 0.55f64.to_bits()) {
+            fails.push(("C09/entry-contract/inverse_5dof/shape>tool>base>opw".to_string(), format!("answer {bad:?} does not carry the caller's J6 = 0.55")));
+        }
+        sigs.push(format!("shape:inverse_5dof:{}", sols.len().min(3)));
     }
     (fails, sigs, calls)
 }
